@@ -505,6 +505,8 @@ impl<T> Block for NoCopyFileSink<T>""")]),
         }
         for (to, from)""", """        let n = o.len();
         for (to, from)""")]),
+    dict(name="f23-reverted-auencode-waits-for-one-byte", prop="C09", expect="C09.R4:<au::AuEncode as block::Block>::work:need(dst)",
+         edits=[E("src/au.rs", "            return Ok(BlockRet::WaitForStream(&self.dst, ss));", "            return Ok(BlockRet::WaitForStream(&self.dst, 1));")]),
     # mutations of REFACTORED shapes (an independently written behaviour-preserving refactor + a one-line break): the rules
     # must keep their teeth on the refactored code, not merely fall silent on it
     dict(name="m3r4+busy-arm-forgets-done", prop="C06", expect="C06.R1:<graph::Graph as graph::GraphRunner>::run:Again",
@@ -556,6 +558,21 @@ impl<T> Block for NoCopyFileSink<T>""")]),
     dict(name="m4r5+macro-no-output-clamp", prop="C19", expect="C19.R2:",
          patch="/verif/neutral_seeded/m4-r5/patch.diff", edits=[],
          post_edits=[E("rustradio_macros/src/lib.rs", "                    let n = n #(.min(#out_names.len()))*;", "                    let n = n;")]),
+    dict(name="a8r6+write-through-forgets-flush", prop="C17", expect="C17.R2:",
+         patch="/verif/neutral_seeded/a8-r6/patch.diff", edits=[],
+         post_edits=[E("src/file_sink.rs", "    f.write_all(bytes)?;\n    f.flush()\n", "    f.write_all(bytes)\n")]),
+    dict(name="a4r6+bypass-ignores-remainder", prop="C14", expect="C14.R4:<file_source::FileSource as block::Block>::work:fastpath:whole",
+         patch="/verif/neutral_seeded/a4-r6/patch.diff", edits=[],
+         post_edits=[E("src/file_source.rs", "        self.buf.is_empty() && (n % sample_size) == 0", "        self.buf.is_empty() && (n / sample_size) != 0")]),
+    dict(name="a3r6+encoder-waits-for-one-byte", prop="C09", expect="C09.R4:<au::AuEncode as block::Block>::work:need(dst)",
+         patch="/verif/neutral_seeded/a3-r6/patch.diff", edits=[],
+         post_edits=[E("src/au.rs", "(_, 0) => return Ok(BlockRet::WaitForStream(&self.dst, PCM16_BYTES)),", "(_, 0) => return Ok(BlockRet::WaitForStream(&self.dst, 1)),")]),
+    dict(name="a5r6+pass-complete-inverted", prop="C16", expect="C16.R6:<vector_source::VectorSource as block::Block>::work:again()",
+         patch="/verif/neutral_seeded/a5-r6/patch.diff", edits=[],
+         post_edits=[E("src/vector_source.rs", "        let pass_complete = self.pos == self.data.len();", "        let pass_complete = self.pos != self.data.len();")]),
+    dict(name="a1r6+discard-all-forgets-consume", prop="C09", expect="C09.R9:<null_sink::NullSink as block::Block>::work:wait(src)",
+         patch="/verif/neutral_seeded/a1-r6/patch.diff", edits=[],
+         post_edits=[E("src/null_sink.rs", "    window.consume(everything);", "    let _ = (window, everything);")]),
     dict(name="m4r5+macro-no-take", prop="C08", expect="C08.R1:",
          patch="/verif/neutral_seeded/m4-r5/patch.diff", edits=[],
          post_edits=[E("rustradio_macros/src/lib.rs", "#zipped_inputs.take(n).enumerate()", "#zipped_inputs.enumerate()")]),
